@@ -9,7 +9,7 @@ package c10
 //	Quant       := * + ? {1,2} {2} {0,}  each greedy or lazy
 //
 // size = number of symbols: every atom, quantifier, group and '|' counts 1.
-// Atoms are split into the core letters {a, b} and the 17 "exotic" atoms; a
+// Atoms are split into the core letters {a, b} and the 18 "exotic" atoms; a
 // pattern is generated when its size and its number of exotic atoms are within
 // the tier's bounds (exhaustive inside those bounds).
 
@@ -20,7 +20,7 @@ type genPat struct {
 }
 
 var coreAtoms = []string{"a", "b"}
-var exoticAtoms = []string{".", `\d`, `\w`, `\b`, `\B`, "[ab]", "[^a]", "[a-c]", `[\d]`, `\x61`, "\\" + "u0061", `\cJ`, `\n`, `\/`, `\.`, "^", "$"}
+var exoticAtoms = []string{".", `\d`, `\w`, `\b`, `\B`, "[ab]", "[^a]", "[a-c]", `[\d]`, `\x61`, `\x0A`, "\\" + "u0061", `\cJ`, `\n`, `\/`, `\.`, "^", "$"}
 var coreQuants = []string{"*", "+", "?", "*?"}
 var exoticQuants = []string{"{1,2}", "{2}", "{0,}", "+?", "??", "{1,2}?", "{2}?", "{0,}?"}
 
